@@ -164,6 +164,15 @@ class PolicyIteration(ValueIteration):
             initial_policy = jax.vmap(self.problem.initial_policy)(
                 self.problem.state_space
             )
+            # Hold the policy in a dtype that can also represent the action space
+            # (e.g. an integer-typed starting policy for float-valued actions):
+            # later policies are rows of the action space, and a checkpoint is
+            # restored into the dtype of a freshly initialised policy
+            initial_policy = initial_policy.astype(
+                jnp.promote_types(
+                    initial_policy.dtype, self.problem.action_space.dtype
+                )
+            )
         except NotImplementedError:
 
             # Extract policy using zero values (maximizes immediate reward)
